@@ -128,12 +128,8 @@ def run(ctx, rep):
     rep.ob('C10.count', 'verify-arguments', okv, f'verify calls generate_queries with {shown[:200]}', v.loc(), cfg)
     # ---------- point map ----------
     q = db.fn(QUERIES_TO_POINTS, 'C10')
-    Tq = exprtree.Trees(db, q)
-    pt = None
-    for bi, t in q.calls():
-        if t['f'].get('name') == 'push':
-            pt = Tq.operand(t['args'][1])
-    s = exprtree.show(pt) if pt else ''
+    pt, form = common.elementwise(db, q)
+    s = exprtree.show(pt) if pt else form
     ok = False
     if pt and pt[0] == 'mul':
         parts = [pt[1], pt[2]]
@@ -144,10 +140,10 @@ def run(ctx, rep):
             sb = exprtree.show(base)
             se = exprtree.show(ex)
             ok = sb == 'a2.eval_generator' and se.startswith('reverse_bits(mul(') and 'pow_felt(2, sub(64, a2.log_eval_domain_size))' in se \
-                and 'a1' in se
+                and 'ELEM(a1)' in se
     rep.ob('C10.points', 'formula', ok, f'point pushed: {s[:220]}', q.loc(), cfg, sample=True)
     # reverse_bits must be the 64-bit one
-    rb = [t for _, t in q.calls() if t['f'].get('name') == 'reverse_bits']
+    rb = [t for b_ in common.bodies(db, q) for _, t in b_.calls() if t['f'].get('name') == 'reverse_bits']
     rep.ob('C10.points', 'reverse_bits-u64', bool(rb) and all('u64' in (t['f'].get('full') or '') for t in rb),
            f'reverse_bits callee: {[t["f"].get("full") for t in rb]}', q.loc(), cfg)
     for cpath in ('swiftness_stark::queries::FIELD_GENERATOR', 'swiftness_air::domains::FIELD_GENERATOR'):
